@@ -125,7 +125,7 @@ def case_axis(ctx, c):
     if g.random() < 0.3:
         arr = (arr % 3).astype(arr.dtype)  # heavy ties
     naxes = int(g.integers(1, nd))
-    axes = tuple(sorted(int(x) for x in g.choice(nd, naxes, replace=False)))
+    axes = tuple(int(x) for x in g.choice(nd, naxes, replace=False))      # in the order drawn: tuples need not be sorted
     axarg = axes[0] if len(axes) == 1 and g.random() < 0.5 else axes
     rname, rng = mkrng(g, c)
     icls = "%dD/%d axes" % (nd, len(axes))
